@@ -39,6 +39,8 @@ OwnerT == IF Ln.ok = "rl" THEN RL(Ln.b) ELSE HT(Ln.oa)
 Logged ==
   \/ Is("Disp") /\ ~Ln.fw /\ Ln.act # 0 /\ nev + 1 = Ln.e /\ task[HT(Ln.act)].pc # "sync" /\ HDispatch(Ln.act, Ln.b, Ln.ty) /\ Last(o'.disp).out = Ln.out
   \/ Is("Disp") /\ ~Ln.fw /\ Ln.act = 0 /\ nev + 1 = Ln.e /\ DDispatchN(Ln.drv, Ln.b, Ln.ty, Ln.n) /\ Last(o'.disp).out = Ln.out
+  \/ Is("Disp") /\ ~Ln.fw /\ Ln.act = 0 /\ Ln.e <= nev /\ DRedispatch(Ln.drv, Ln.e, Ln.b) /\ Last(o'.disp).out = Ln.out
+  \/ Is("Disp") /\ ~Ln.fw /\ Ln.act # 0 /\ Ln.e <= nev /\ task[HT(Ln.act)].pc # "sync" /\ task[HT(Ln.act)].e = Ln.e /\ HRedispatch(Ln.act, Ln.b) /\ Last(o'.disp).out = Ln.out
   \/ Is("Disp") /\ Ln.fw /\ \E t \in Tasks : /\ task[t].fe = Ln.e /\ task[t].todo # <<>> /\ Head(task[t].todo).kind = "fwd"
                                             /\ Head(task[t].todo).to = Ln.b /\ OwnerNext(t) /\ Last(o'.disp).out = Ln.out
   \/ Is("ProcB") /\ Ln.ok = "rl" /\ task[RL(Ln.b)].e = Ln.e /\ (RLBegin(Ln.b) \/ RLGranted(Ln.b)) /\ task'[RL(Ln.b)].pc = "pb0"
